@@ -205,6 +205,54 @@ TAG_REMOVERS = {"dedup", "dedup_by", "dedup_by_key", "retain", "retain_mut", "tr
                 "split_off", "sort_unstable", "sort_unstable_by", "sort_unstable_by_key"}
 
 
+def rule_r6(facts, col, rule_id="C12.R6"):
+    """a per-sample hook hands on the tags it was handed: in every `process_sync_tags(&mut self, sample, tags: &[Tag], ..) ->
+    (sample, tags)` (the generated work() of a `sync_tag` block emits exactly the tags the hook returns), each alternative of the
+    returned tag collection is built from the `tags` parameter of the first input - borrowed as it is, or copied (`to_vec`,
+    `iter().cloned()`, `extend_from_slice(tags)`) and added to.  An alternative built from fresh values only (`vec![new_tag]`,
+    `Vec::new()`) replaces the sample's tags instead of adding to them: every input tag that sits on such a sample is lost.
+    Reported on affirmative evidence (an alternative that is a fresh collection the parameter never flows into)."""
+    n = 0
+    for body in facts.bodies:
+        if body.name != "process_sync_tags" or body.kind == "closure":
+            continue
+        tparams = [i for i in range(1, body.argc + 1) if body.locals[i]["ty"].replace(" ", "").replace("'a", "").replace("&'", "&")
+                   .replace("&_", "&") in ("&[stream::Tag]",) or body.locals[i]["ty"].endswith("[stream::Tag]")]
+        if not tparams:
+            continue
+        tp = tparams[0]
+        for rbb, si, e in assigns_to_return(body):
+            pe = peel(e, through_try=False)
+            if pe is None or pe.k != "agg" or len(pe.args or []) < 2:
+                continue
+            tv = peel(pe.args[-1], through_try=False)
+            alts = tv.alts if (tv is not None and tv.k == "multi" and tv.alts) else [tv]
+            for j, a in enumerate(alts):
+                n += 1
+                key = "%s:ret#%d" % (body.q, j)
+                if a is None:
+                    continue
+                if any(x.k == "param" and x.idx == tp for x in walk(a)):
+                    col.ok(rule_id, key, body.where(rbb), "the returned tags are built from the `tags` parameter")
+                    continue
+                fresh = [x for x in walk(a) if (x.k == "call" and ((x.q or "").split("::")[-1] in ("new", "with_capacity", "into_vec", "from_elem", "from", "default", "new_uninit", "box_assume_init_into_vec_unsafe")))
+                         or (x.k == "agg" and x.ak in ("array",))]
+                # does the parameter flow into one of the locals of this alternative later (`v.extend_from_slice(tags)`)?
+                flows = False
+                for bb, t in body.calls():
+                    if len(t["args"]) >= 2 and (t.get("argtys") or [""])[0].startswith("&mut") \
+                            and any(x.k == "param" and x.idx == tp for a_ in t["args"][1:] for x in walk(body.operand_expr(a_))):
+                        flows = True
+                if fresh and not flows:
+                    col.bad(rule_id, key, body.where(rbb),
+                            "process_sync_tags returns, on one of its paths, a tag collection built from fresh values only (%s): the generated "
+                            "work() emits exactly what the hook returns, so every input tag on such a sample is dropped instead of carried "
+                            "forward" % show(a)[:80], {})
+                else:
+                    col.silent(rule_id, key, body.where(rbb), "origin of the returned tags not visible: not decided")
+    return n
+
+
 def rule_r5(facts, col, rule_id="C12.R5"):
     """forwarded tags are forwarded, all of them: where work() hands the tag list it received from read_buf() to produce(),
     nothing in between removes elements from that list (`dedup`, `retain`, `truncate`, `drain`, ..).  Re-basing positions in
@@ -272,6 +320,8 @@ def run(ctx):
     ctx.floor("C12.S10", 3, "same floor as C02.R12")
     for rid, n in (("C12.S5", 1), ("C12.S6", 2), ("C12.S7", 1), ("C12.S8", 1), ("C12.S9", 1)):
         ctx.floor(rid, n, "same floor as C02.R%s" % rid[-1])
+    rule_r6(facts, ctx)
+    ctx.floor("C12.R6", 2, "return alternatives of the process_sync_tags hooks (BurstTagger x2, CorrelateAccessCode x1 today)")
     rule_r5(facts, ctx)
     ctx.floor("C12.R5", 3, "hand-written blocks that forward the tag list of their read window (FirFilter, Delay, Skip, ..)")
     c19.rule_work(fam, ctx, only={"C12.R2"})
